@@ -285,7 +285,8 @@ class Prog:
                     (self.dilate_gate == "key" and "key" in kinds) or self.world.step > 120):
                 def f():
                     self.dilate_budget -= 1
-                    self._api("dilate", lambda: app.w.dilate(no_listen=self.rng.random() < 0.2))
+                    pi = self.rng.choice([None, None, 5, 30, 2.5])       # (seconds; whole numbers are as legal as floats)
+                    self._api("dilate", lambda: app.w.dilate(no_listen=self.rng.random() < 0.2, ping_interval=pi))
                 acts.append(((name, "dilate"), f))
         if self.budget["send"] > 0 and not closing:
             def f():
